@@ -58,12 +58,6 @@ Proof.
     split; [constructor; [apply (asc_seq (S n) 0)|constructor]|constructor; [simpl; lia|constructor]].
 Qed.
 
-Lemma NoDup_app_disj : forall (A : Type) (l1 l2 : list A) x, NoDup (l1 ++ l2) -> In x l1 -> In x l2 -> False.
-Proof.
-  induction l1 as [|y l1 IH]; intros l2 x H H1 H2; [contradiction|]. simpl in H. inversion H; subst.
-  destruct H1 as [->|H1]; [apply H4; apply in_or_app; right; exact H2|eapply IH; eassumption].
-Qed.
-
 (* the class of a vertex = the index of its initial bin *)
 Lemma in_cell_index : forall cs b c a u, cs = b ++ c :: a -> NoDup (order_of cs) -> In u (cverts c) ->
   in_cell cs u = length b.
